@@ -1,5 +1,5 @@
 """C10 — the reported LSM shape is always well formed."""
-from gen import lib, vfn, dbh, codec
+from gen import lib, vfn, dbh, codec, proto
 
 PROP_FILE = "props/C10.v"
 RULE = ("dbhist: histories with frequent flushes, compact_range calls and reopens (options changed, "
@@ -8,7 +8,9 @@ RULE = ("dbhist: histories with frequent flushes, compact_range calls and reopen
         "invariant lsm_wf_b (levels >= 1 sorted and disjoint, bounds exactly first/last entry, smallest "
         "<= largest, file numbers unique, recency order) and the SSTables / NumFilesAtLevel descriptors "
         "are cross-checked against the dump. vfn: VersionBuilder::apply_changes on random versions and "
-        "edits. Non-trivial: at least one write; distinct by sha1.")
+        "edits. proto: every manifest record the code writes (snapshot records with the bounds of every "
+        "file included) must equal, field by field, the record the protocol model derives. "
+        "Non-trivial: at least one write; distinct by sha1.")
 TRUSTED = ["the structural dump hook DB::verif_dump (cfg raindb_verif) reports the current version; file contents are read back through the real Table reader"]
 ASSUMPTIONS = ["observed at quiescent moments (the harness waits for background work before dumping)"]
 
@@ -23,18 +25,23 @@ def gen_cases(tier, rng):
 def suites(tier, seed, rng):
     return [dbh.DbSuite(dbh.corpus("C10") + dbh.corpus("C01") + gen_cases(tier, rng)),
             vfn.VfnSuite("vfn", vfn.gen(tier, rng, {"apply"}), lambda i, s, c: True),
-            codec.CodecSuite("codec", codec.gen(tier, rng, ("V",)), lambda i, s, c: True)]
+            codec.CodecSuite("codec", codec.gen(tier, rng, ("V",)), lambda i, s, c: True),
+            proto.ProtoSuite([proto.gen_history(rng, i, rng.choice([12, 25, 40])) for i in range(16 if tier == "quick" else 800)])]
 
 
 def replay_suites(rp):
     if rp.get("suite") == "vfn":
         return [vfn.VfnSuite("vfn", [rp["case"]], lambda i, s, c: True)]
+    if rp.get("suite") == "proto":
+        return [proto.ProtoSuite([rp["case"]])]
     return [dbh.DbSuite([rp["case"]])]
 
 
 def still_fails(suite, case, workdir):
     if suite == "vfn":
         return vfn.still_fails(case, workdir)
+    if suite == "proto":
+        return proto.still_fails(case, workdir)
     return dbh.still_fails(case, workdir)
 
 
@@ -47,4 +54,6 @@ def classify(suite, case):
         return "vfn:" + case.split(" ")[2]
     if suite == "codec":
         return "codec:manifest"
+    if suite == "proto":
+        return "proto:reopens=%d" % min(case.count(" O"), 3)
     return "dbhist:reopens=%d" % min(case.count(" O"), 5)
